@@ -46,6 +46,12 @@ CHECKS = {
  "C13": ("behavioural conversion monitor (lossless widening, identity round trip, membership <=> checked narrowing, per-part rounding, float lift/extract, nalgebra convert/try_convert/cast) + sanitizer lanes for the memory clause: Miri (UB, uninitialised reads, OOB, leaks) and valgrind memcheck on a dedicated workload incl. heap-owning nested element types",
          "Runtime monitoring + sanitizers: ~7e4 (quick) / ~7e6 (thorough) conversion observations over 27 type pairs, static dims 0..6 and dynamic 0..6, present/absent parts, non-symmetric storage; Miri 16 shards x 6 (quick) / 150 (thorough) workload cases, valgrind 8 x 150 / 16 x 4000 cases; a sanitizer report is a VIOLATION with the tool log as replay file.",
          "Miri cannot prove absence of UB on paths the workload does not drive; simba reports every finite f64 as member of f32", "DESIGN.md 3/C13"),
+ "C16": ("event-stream monitor: a recording serde Serializer logs the call sequence of the derived Serialize impl (struct name, length, keys, leaf bits), checked against the documented part names and stored parts; a replaying Deserializer (map in order, map permuted, sequence) must restore every part bitwise; serde_json round trip on exactly representable values",
+         "Runtime monitoring: ~3e4 (quick) / ~3e6 (thorough) streams over 24 scalar types and nestings (depth <= 3, f32/f64) with distinct exotic bit patterns per part (subnormals, -0.0, huge, tiny).",
+         "the harness' Serializer/Deserializer implement the serde data model for structs of floats; JSON used only where the bare float round-trips", "DESIGN.md 3/C16"),
+ "C18": ("grammar monitor: a recursive-descent parser written from the documented layout must consume every rendering completely and every number token must parse back bitwise to the stored part in its stored position; absent parts must not appear",
+         "Runtime monitoring: ~9e4 (quick) / ~4.5e6 (thorough) renderings over 45 types (scalar, vector static/dynamic with dimensions 0..4, nested), all presence patterns reached by random masks, distinct exotic values per storage slot, non-symmetric matrices.",
+         "matrix-shaped parts of nested element types are not driven; Python repr is compared with the Rust rendering under C17", "DESIGN.md 3/C18"),
  "C01": ("reference-model monitor: every call of every elementary function on every type vs power-series Taylor composition, stratified random inputs",
          "Runtime monitoring: the real functions are executed on ~3e5 (quick) / ~1e7 (thorough) generated operands over 51 type instantiations and every argument region; each result part is compared with an independent truncated-Taylor-algebra model within 32*u*sum|terms|. Holds on what was observed, not a proof.",
          "trusts libm for g(x0); tolerance constant calibrated on the unchanged tree (max observed ratio < 10)", "DESIGN.md 3/C01"),
